@@ -329,7 +329,7 @@ Definition mk_stream (data : bytes) (sizes : list N) (term : N) (together : bool
   seal (seg_go (Datatypes.S (length data)) data sizes sizes []) term together.
 
 (* cause id as the harness prints it: a sentinel id, or -2 for anything else *)
-Definition obs_cause (e : N) : sx := if (e <=? 4)%N then sN e else SZ (-2)%Z.
+Definition obs_cause (e : N) : sx := if (e <=? 9)%N then sN e else SZ (-2)%Z.
 Definition obs_ocause (e : option N) : sx := match e with None => SZ (-1)%Z | Some x => obs_cause x end.
 
 Definition zbool (z : Z) : bool := negb (z =? 0)%Z.
